@@ -860,7 +860,9 @@ struct Case {
 	// a copy of the authority taken from inside one of its callbacks (fsm_states.hpp: hub): whatever the machine was in
 	// the middle of, the copy is a machine, and its cycles deliver their phases (C05; nothing else is known about it)
 	void snapshotCheck() {
-		static const char* const ONLY_C05[] = {"C05", nullptr};
+		// cycles: the phases (C05); plan outcomes only when warranted (C09) - the task reports that may be outstanding in
+		// the copy are those that might have been outstanding in the original when the copy was taken
+		static const char* const ONLY_C05[] = {"C05", "C09", nullptr};
 		static const char* const ONLY_LOAD[] = {"C12", "C14", nullptr};
 		Inst& sn = w.inst[4];
 		const void* ctxExp = A().ctxExpected;
@@ -873,6 +875,11 @@ struct Case {
 		const ffsm2::StateID act = sn.obj->activeStateId();
 		sn.cur = act == ffsm2::INVALID_STATE_ID ? -1 : static_cast<int>(act);
 		sn.rootIn = sn.cur >= 0;
+		for (unsigned i = 0; i < 32; ++i) { sn.succMay[i] = w.snapSuccMay[i]; sn.failMay[i] = w.snapFailMay[i]; }
+		sn.tasksAdded = w.snapTasksAdded;
+#if HAS_PLANS
+		sn.plan = readPlan(static_cast<const Instance*>(sn.obj)->plan());
+#endif
 		w.snapPending = false;
 		if (sn.cur >= 0) {
 			w.muteAllow = ONLY_C05;
@@ -1270,6 +1277,8 @@ int main(int argc, char** argv) {
 		if (!samePlan(readPlan(static_cast<const Instance*>(sn)->plan()), readPlan(static_cast<const Instance*>(in.obj)->plan())))
 			w.V("C17", "copy-not-observationally-equal|plan|taken-inside-callback", fmt("copy taken inside %s: the plan differs from the original's", mname(m)));
 #endif
+		for (unsigned i = 0; i < 32; ++i) { w.snapSuccMay[i] = in.succMay[i]; w.snapFailMay[i] = in.failMay[i]; }
+		w.snapTasksAdded = in.tasksAdded;
 		w.snapPending = true;
 		w.stats.add2("snapshots_taken_inside", mname(m));
 		if (in.st.op == OP_CTOR) w.stats.add("snapshots_taken_during_construction");
